@@ -121,14 +121,16 @@ CHECKS = {
                    "sweep through the public API). get_mut / mem::replace have trusted specs.",
     ),
     "C05": dict(
-        engine="verus-units", design_ref="DESIGN.md §10 'C05 contract notes'", technique="deductive verification (Verus/Z3) of function contracts with loop invariants on the extracted real full-synchronisation emitters; three obligations fail on the unchanged tree and are recorded as known findings with concrete witnesses",
+        engine="verus-units", design_ref="DESIGN.md §10 'C05 contract notes'", technique="deductive verification (Verus/Z3) of function contracts with loop invariants on the extracted real synchronisation emitters (full and incremental); four obligations fail on the unchanged tree and are recorded as known findings with concrete witnesses",
         text="Emitter half of the statement, for every set of databases and keys: the REAL get_full_sync_opps announces every database except $admin (name and token), "
              "sends a line for every live key of it and ends it with the snapshot request (discharged, with loop invariants over both loops); get_pendding_opps_since sends "
-             "everything when since == 0. Three clauses taken from the statement FAIL on the unchanged tree and are listed in known_findings.json, each with the failed "
+             "everything when since == 0. The REAL incremental emitter get_pendding_opps_since_from_sync (loop invariant: the cached database handle is the database the last "
+             "record named) sends one line per record of the operation-log query, in log order, each carrying what the primary holds NOW for the database and key the record names. "
+             "Four clauses taken from the statement FAIL on the unchanged tree and are listed in known_findings.json, each with the failed "
              "obligation and a witness scenario of the bounded sweep (which feeds the real lines through the real parser of an empty node and compares datasets): the lines "
-             "lack the version field the receiver parses (values and versions do not arrive), removed keys are sent as live writes, and the conflict strategy of a database "
-             "is not sent. The existing unit tests pin the emitted strings, so none of the three can be repaired without editing tests.",
-        level_note="Only the full-synchronisation emitter is under contract. The join handshake, the incremental (oplog) path, the receiving handlers and writes "
+             "lack the version field the receiver parses (values and versions do not arrive; full and incremental emitter), removed keys are sent as live writes, and the conflict strategy of a database "
+             "is not sent. The existing unit tests pin the emitted strings, so none of them can be repaired without editing tests.",
+        level_note="Only the two emitters are under contract. The join handshake, the receiving handlers and writes "
                    "accepted during the synchronisation are NOT decided. A known finding suppresses exactly its own obligation (or its own sweep scenario): any other "
                    "failing clause or scenario is still a VIOLATION.",
     ),
